@@ -190,6 +190,8 @@ class OFolder(Folder):
             return obj.fields[attr]
         if attr == "__class__":
             return self.module(obj.mod)[obj.cls]
+        if attr == "__dict__" and obj.payload is None:
+            return obj.fields          # the instance dictionary itself: updates through it are attribute stores
         f = self._find_method(obj, attr)
         if f is not None:
             d = self._decos(f)
@@ -293,6 +295,16 @@ class OFolder(Folder):
             f = self.src.resolve_method(v.mod, v.name, attr)
             if f is not None:
                 return ClassFunc(f)
+            if attr == "__new__":
+                # object.__new__(cls): an instance without attributes (only for classes that do not define __new__ and have no payload)
+                def bare(a, k, v=v):
+                    if len(a) != 1 or a[0] is not v or k:
+                        raise Unknown("__new__ with arguments")
+                    for m, c in self.src.mro(v.mod, v.name):
+                        if any(isinstance(b, ast.Name) and b.id in ("dict", "list", "str", "tuple", "int") for b in c.bases):
+                            raise Unknown("__new__ of a class with a builtin base")
+                    return Obj(v.mod, v.name)
+                return NativeFunc(bare, "%s.__new__" % v.name)
             # class attribute assigned in the class body
             for st in v.node.body:
                 if isinstance(st, ast.Assign) and any(isinstance(t, ast.Name) and t.id == attr for t in st.targets):
@@ -319,7 +331,11 @@ class OFolder(Folder):
                 if res is not _Missing and res is not NotImplemented:
                     return res
             raise FoldedRaise("TypeError", "unsupported operand")
-        return Folder.v_binop(self, op, l, r)
+        try:
+            return Folder.v_binop(self, op, l, r)
+        except (TypeError, ValueError, ZeroDivisionError, KeyError, IndexError, OverflowError) as e:
+            # a builtin operator raised on folded values (a %-format choking on its data, a division by zero): the modelled code raises
+            raise FoldedRaise(type(e).__name__, str(e))
 
     def v_compare(self, op, l, r):
         if isinstance(op, (ast.Is, ast.IsNot)):
@@ -399,6 +415,10 @@ class OFolder(Folder):
                 if v is TOP:
                     raise Unknown("store of unknown value into %s.%s" % (base.cls, t.attr))
                 base.fields[t.attr] = v
+                return
+            if isinstance(base, (LocalFunc, FuncRef)) and t.attr in ("__name__", "__qualname__", "__doc__", "__module__", "__wrapped__", "__annotations__"):
+                # metadata of a function object (functools.wraps-style bookkeeping): kept, never consulted by a call
+                base.__dict__.setdefault("meta", {})[t.attr] = v
                 return
             raise Unknown("attribute store on %r" % (base,))
         if isinstance(t, ast.Subscript):
@@ -497,6 +517,23 @@ class OFolder(Folder):
         if isinstance(f, LocalFunc):
             fake = _FakeFunc(f.node)
             return self._inline(fake, args, kw, closure_env=f.env)
+        if isinstance(f, FuncRef) and f.node.decorator_list:
+            func = self.src.funcs.get((f.mod, f.name))
+            decos = self._decos(func) if func is not None else []
+            if "lru_cache" in decos or "cache" in decos:
+                # functools.lru_cache: one result per argument tuple for the life of the process; keys are compared with == / hash
+                # (so 0, 0.0 and False are ONE key)
+                try:
+                    key = (tuple(args), tuple(sorted(kw.items())))
+                    hash(key)
+                except TypeError:
+                    raise FoldedRaise("TypeError", "unhashable argument of a cached function")
+                memo = self.__dict__.setdefault("_lru", {}).setdefault((f.mod, f.name), {})
+                if key not in memo:
+                    memo[key] = self._inline(func, args, kw)
+                return memo[key]
+            if decos and not set(decos) <= {"no_type_check", "staticmethod", "overload"}:
+                raise Unknown("call of %s decorated with %s" % (f.name, decos))
         if isinstance(f, FuncRef) and (f.simple_return() is None or f.mod in self.overrides):
             func = self.src.funcs.get((f.mod, f.name))
             if func is None:
